@@ -510,7 +510,15 @@ match self.rng.below(8) {
             }
             88..=93 => {
                 if self.pct(50) {
-                    Top::SetBlock { height: 0, time_nanos: 0, chain_id: String::new(), next: true }
+                    if self.pct(50) {
+                        Top::SetBlock { height: 0, time_nanos: 0, chain_id: String::new(), next: true }
+                    } else {
+                        // only some of the fields move
+                        let dh = if self.pct(50) { 0 } else { self.rng.range(1, 3) };
+                        let dt = match self.rng.below(3) { 0 => 0, 1 => self.rng.range(1, 999_999_999), _ => self.rng.range(1, 100) * 1_000_000_000 };
+                        let chain_id = if self.pct(30) { Some(format!("bumped-{}", self.rng.below(3))) } else { None };
+                        Top::BumpBlock { dh, dt_nanos: dt, chain_id }
+                    }
                 } else {
                     Top::SetBlock { height: self.rng.range(1, 1_000_000), time_nanos: self.rng.range(1, 2_000_000_000) * 1_000_000_000, chain_id: format!("chain-{}", self.rng.below(5)), next: false }
                 }
